@@ -32,7 +32,10 @@ RULE = ("seeded data sets (distinct x, more points than parameters; sigma_y none
         "def, renamed lambda, functools.partial, object with __call__ with and without a __name__, "
         "bound method, decorated function, *params) UNDER EVERY KIND OF NAME (each pre-set model "
         "name, 'custom', other names), among them user formulas that are polynomials with the "
-        "parameters in another order or a power left out; data "
+        "parameters in another order or a power left out; REJECTED REQUESTS BEFORE THE FIT: the "
+        "caller's MeasurementArrays / arrays / lists first sent through q.fit / XYDataSet (positional "
+        "and keyword form) with one side's uncertainties invalid (wrong length, negative entry, "
+        "negative number) and the other side's valid, then fitted the ordinary way; data "
         "passed as lists, arrays, MeasurementArrays, XYDataSet (keywords or arrays carrying the "
         "uncertainties), XYDataSet.fit, keywords, enum model, y as DerivedValues, Plot.fit) fitted by "
         "the real library; the returned parameters/covariance are certified by the Lean driver "
@@ -97,6 +100,9 @@ def gen_cases(ctx, n):
             cases.append(G.gen_repeated(ctx.rng, want_range=None))
         elif t < 0.30:
             cases.append(G.gen_signed(ctx.rng, units=u))
+        elif t < 0.36:
+            cases.append(G.add_faults(ctx.rng, G.gen_case(ctx.rng, units=u, form=ctx.rng.choice(
+                G.FAULT_FORMS[:2] * 2 + G.FAULT_FORMS[2:]))))
         else:
             cases.append(G.gen_case(ctx.rng, units=u))
     return cases
@@ -146,6 +152,32 @@ def targeted(ctx):
             out.append(c)
             k += 1
     out += typed_cases(rng) + repeated_cases(rng) + signed_cases(rng) + callable_cases(rng)
+    out += fault_cases(rng)
+    return out
+
+
+def fault_cases(rng, want_range=None, every=1):
+    """(7) REJECTED REQUESTS BEFORE THE FIT (fitgen FAULT NOTES): the caller's data objects
+    (MeasurementArrays, an XYDataSet's arrays, numpy arrays, lists) are first sent with a request
+    that must be rejected -- one side's uncertainties invalid (wrong length, negative), the other
+    side's valid -- through every entry that takes them, then fitted the ordinary way: the fit is
+    the weighted optimum for the data the user has"""
+    out = []
+    fams = ("exponential", "gaussian", "custom:sine", "custom:growth", "custom:lorentz", "linear",
+            "quadratic", "polynomial", "custom:decay", "custom:affine")
+    k = 0
+    for kind in G.FAULT_KINDS:
+        for entry in G.FAULT_ENTRIES:
+            k += 1
+            if k % every:
+                continue
+            fam = fams[k % len(fams)]
+            # x exactly known / with uncertainties of its own; y with and without uncertainties
+            c = G.gen_case(rng, family=fam, form=G.FAULT_FORMS[(k // 2) % 2 if k % 8 else 2 + (k // 8) % 2],
+                           noise_free=False, want_range=want_range,
+                           sx=("none", "point", "none", "common")[k % 4],
+                           sy=("point", "common", "none", "point")[(k // 4) % 4])
+            out.append(G.add_faults(rng, c, entry=entry, kind=kind, count=1 if k % 3 else 2))
     return out
 
 
@@ -284,4 +316,10 @@ def replay(ctx, rp):
     if not c:
         return {"fails": False, "note": "replay file carries no concrete input", "payload": rp}
     r = X.run_c06(ctx, [c])
+    # a change to a regenerated table moves the model along with the library: the replay is judged
+    # by the reference driver (tables the theorems were last proved for) as well, as search() does
+    try:
+        r["failures"] += X.run_c06(ctx, [c], ref=True)["failures"]
+    except Exception:  # noqa: BLE001  (reference driver unavailable)
+        pass
     return {"fails": bool(r["failures"]), "failures": r["failures"]}
